@@ -42,6 +42,7 @@ def elements(n):
         ('\\%s{%s}' % (n.x, n.a), (('C', n.x, (('G{', (('T', n.a),)),), ()),), 'cmd'),
         ('{%s}' % n.a, (('G{', (('T', n.a),)),), 'group'),
         ('\\$', (('T', '\\$'),), 'text'),
+        ('\\\\', (('T', '\\\\'),), 'text'),
         ('(', (('T', '('),), 'bracket'),
         (')', (('T', ')'),), 'bracket'),
         ('[', (('T', '['),), 'bracket'),
